@@ -93,12 +93,14 @@ class AsyncChannel(AsyncIterable[T]):
         self._waiting_receivers += 1
         try:
             result = await self._queue.get()
-            if result is self.__flush:
-                raise StopAsyncIteration
-            return result
         finally:
             self._waiting_receivers -= 1
-            self._queue.task_done()
+        # Only an item that was actually obtained may be marked as done; a cancelled
+        # or timed out get() must not touch the queue's bookkeeping.
+        self._queue.task_done()
+        if result is self.__flush:
+            raise StopAsyncIteration
+        return result
 
     def closed(self) -> bool:
         """
@@ -164,12 +166,13 @@ class AsyncChannel(AsyncIterable[T]):
         self._waiting_receivers += 1
         try:
             result = await self._queue.get()
-            if result is self.__flush:
-                return None
-            return result
         finally:
             self._waiting_receivers -= 1
-            self._queue.task_done()
+        # See __anext__: task_done() only after a successful get().
+        self._queue.task_done()
+        if result is self.__flush:
+            return None
+        return result
 
     def close(self):
         """
